@@ -5,6 +5,7 @@ package dnsforward
 // C03 — access lists: excluded clients and blocked names are never served.
 //
 //vx:overlay internal/dnsforward/zz_vx_c03.go
+//vx:native
 //vx:entry vxC03Decision reach=allow-mode,block-mode,dropped,refused,served,host-blocked
 //vx:entry vxC03Lists reach=list-allowed,list-disallowed
 //vx:stub (*github.com/AdguardTeam/urlfilter.DNSEngine).MatchRequest vxC03MatchRequest
